@@ -111,6 +111,8 @@ def parseCase : P (String × String) := do
   match fam with
   | "zch" => return runZch (← pZch)
   | "ssm" => return runSsm (← pSsm)
+  -- caps-word slice: outside the model; the runner's model-free oracle judges the real trace
+  | "zcw" => do let _ ← pZch; return ("unsupported", "-")
   | x => throw s!"unknown family {x}"
 
 /-- returns (model output, spec output) -/
